@@ -607,6 +607,8 @@ def nontrivial(case, res):
     for h, fmt in case['hist']:
         if h == REG:
             return True
+        if h == ASPATH:
+            continue
         if (_ext(P['files'][h]) or fmt) and (h.rsplit('_', 1)[0] != pk or fmt):
             return True
     return False
